@@ -5,6 +5,7 @@ package mc
 import (
 	"fmt"
 	"os"
+	"time"
 )
 
 // Run dispatches a property check to its engine.
@@ -14,7 +15,27 @@ func Run(prop, tier string) int {
 		return 2
 	}
 	if cfg := WConfig(prop, tier); cfg != nil {
-		sum := RunMaster(cfg, []string{"worker", prop, tier})
+		variants := cfg.Variants
+		if len(variants) == 0 {
+			variants = []string{""}
+		}
+		var sum *Summary
+		for i, v := range variants {
+			vc := WConfig(prop, tier)
+			vc.Fixture.Variant = v
+			if i > 0 && vc.VariantPhases != nil {
+				vc.Phases = vc.VariantPhases
+			}
+			// split the wall-clock budget: the default variant gets half, the others share the rest
+			if len(variants) > 1 {
+				if i == 0 {
+					vc.Deadline = cfg.Deadline / 2
+				} else {
+					vc.Deadline = cfg.Deadline / 2 / time.Duration(len(variants)-1)
+				}
+			}
+			sum = MergeSummaries(sum, RunMaster(vc, []string{"worker", prop, tier, v}))
+		}
 		return Conclude(cfg, sum)
 	}
 	if f, ok := OtherEngines[prop]; ok {
@@ -78,7 +99,22 @@ func RunTrace(prop, root string, ops []string) int {
 	for _, n := range ops {
 		op := lib.Get(n)
 		plan := w.PlanOp(op)
+		pres := make([]interface{}, len(cfg.Oracles))
+		for i, o := range cfg.Oracles {
+			if o.Pre != nil {
+				pres[i] = o.Pre(w, op, plan)
+			}
+		}
 		br := w.Exec(plan)
+		if br.OK() {
+			for i, o := range cfg.Oracles {
+				if o.Post != nil {
+					for _, f := range o.Post(&Transition{W: w, Op: op, Plan: plan, Res: br, Pre: pres[i], Path: ops}) {
+						fmt.Printf("   FINDING %s %s: %s\n", f.Clause, f.Disc, f.Detail)
+					}
+				}
+			}
+		}
 		fmt.Printf("== %s: height=%d ok=%v %s\n", n, br.Height, br.OK(), br.Err)
 		if br.Res != nil {
 			for i, r := range br.Res.TxResults {
@@ -88,6 +124,24 @@ func RunTrace(prop, root string, ops []string) int {
 				}
 				fmt.Printf("   tx%d code=%d gas=%d %s\n", i, r.Code, r.GasUsed, log)
 			}
+		}
+		if et := os.Getenv("VERIF_DUMP_EVENTS"); et != "" && br.OK() {
+			for _, e := range br.Res.Events {
+				if e.Type == et {
+					fmt.Printf("   block event %s\n", e.String())
+				}
+			}
+			for i, r := range br.Res.TxResults {
+				for _, e := range r.Events {
+					if e.Type == et {
+						fmt.Printf("   tx%d event %s\n", i, e.String())
+					}
+				}
+			}
+		}
+		if who := os.Getenv("VERIF_DUMP_COMMIT"); who != "" && br.OK() {
+			cm := w.App.CommitmentKeeper.GetCommitments(w.RCtx(), w.A(who).Addr)
+			fmt.Printf("   %s committed=%v claimed=%v vesting=%v\n   total=%v\n", who, cm.CommittedTokens, cm.Claimed, cm.VestingTokens, w.App.CommitmentKeeper.GetParams(w.RCtx()).TotalCommitted)
 		}
 		for _, o := range cfg.Oracles {
 			if o.State != nil {
